@@ -113,6 +113,10 @@ def r_accum(prog, tier):
                     if not ok and (f.fq in FRESH_KEY or (f.module.name == 'grammarinput' and _in_file_line_loop(cfg, n))):
                         ok = True
                         why = 'FRESH-KEY table: ' + FRESH_KEY['grammarinput.rcg']
+                    if ok is False and any(fa == ('in', key, parent, False) and
+                                           no_kill_between(cfg, nid_, n.id, [path(tgt.value), path(tgt.slice)])
+                                           for (fa, nid_) in facts_at(cfg, n.id)):
+                        ok, why = None, 'stored only where `%s not in %s` holds: nothing is overwritten here' % (key, parent)
                     if ok is False and isinstance(v, (ast.Name, ast.Call, ast.BinOp, ast.Subscript)):
                         # positive evidence that the slot may already hold a count: the same function creates entries of
                         # this table only when absent, or adds to it elsewhere
@@ -169,7 +173,7 @@ def r_accum(prog, tier):
                               'count from the source grammar' % (unparse(arg) if arg is not None else '?'), ok, why,
                               construct='handover:%d' % ncalls, line=n.lineno))
     if ncalls < 2:
-        raise Unrecognised('grammar.binarize calls binarize_rule %d times (2 expected)' % ncalls)
+        raise Unrecognised('grammar.binarize calls binarize_rule %d times (2 expected)' % ncalls, partial=obs)
     # ---- printed count is the sum over contexts
     for nm in prog.registry('grammaroutput', 'FORMATS'):
         f = prog.func('grammaroutput', nm)
@@ -531,7 +535,7 @@ def r_arity(prog, tier):
                 e = e.value
             keys.setdefault((unparse(e.slice), n.id), (e.slice, n, tgt))
     if not keys:
-        raise Unrecognised('binarize_rule stores nothing into its result')
+        raise Unrecognised('binarize_rule stores nothing into its result', partial=obs)
     seen = set()
     for (ktxt, nid), (kexpr, n, tgt) in sorted(keys.items(), key=lambda x: x[0][1]):
         if isinstance(kexpr, ast.Name) and kexpr.id == func_p:
@@ -599,7 +603,7 @@ def r_arity(prog, tier):
                           'depend on it): two rules can share a binarization symbol',
                           construct='labelgen:' + unparse(r.ast), line=r.lineno))
         if not rets:
-            raise Unrecognised('LabelGenerator.next has no return')
+            raise Unrecognised('LabelGenerator.next has no return', partial=obs)
     g = prog.func('grammar', 'binarize')
     gc = g.cfg
     ctors = []
@@ -610,7 +614,7 @@ def r_arity(prog, tier):
                         and sub.func.id in ('LabelGenerator', 'MarkovLabelGenerator'):
                     ctors.append((n, sub))
     if not ctors:
-        raise Unrecognised('grammar.binarize creates no label generator')
+        raise Unrecognised('grammar.binarize creates no label generator', partial=obs)
     for (n, sub) in ctors:
         ok = not n.loops
         obs.append(Ob('R-ARITY/UNIQUE', g.fq, 'the label generator `%s` is created once per binarize call, outside '
@@ -783,6 +787,11 @@ def r_argpos(prog, tier):
                 want = tuple((e_ or not s_) for (e_, s_) in [(bool(k_ & 1), bool(k_ & 2)) for k_ in range(4)])
                 if not tests:
                     okm, whym = False, 'the emission is not guarded at all: consecutive tokens of one child get one reference each'
+                    # ... unless the loop does not run over the tokens one by one (runs of equal keys from groupby, a helper)
+                    il_ = cfg.nodes[inner] if inner is not None else None
+                    if il_ is not None and il_.kind == 'iter' and any(isinstance(x_, ast.Call) for x_ in ast.walk(il_.ast.iter)):
+                        okm, whym = None, 'the loop runs over `%s`, not over the tokens themselves: merging may happen there' % \
+                            unparse(il_.ast.iter)[:50]
                 elif tab == want:
                     okm, whym = True, 'guard equivalent to `len(%s) == 0 or %s[-1][0] != %s` (all four cases compared)' % (cur, cur, ks_)
                 else:
@@ -809,7 +818,9 @@ def r_argpos(prog, tier):
                                 defs_ = name_defs(f, other)
                                 in_tok = [d_ for (d_, v_) in defs_ if inner in cfg.nodes[d_].loops]
                                 in_blk = [d_ for (d_, v_) in defs_ if B in cfg.nodes[d_].loops and inner not in cfg.nodes[d_].loops]
-                                if in_tok and not in_blk:
+                                ids_ = frozenset(d_ for (d_, _) in defs_)
+                                crosses = any(B in cfg.reach(d_, avoid=ids_ - {d_}) and n.id in cfg.reach(B, avoid=ids_) for d_ in in_tok)
+                                if in_tok and not in_blk and crosses:
                                     okm = False
                                     whym = 'the guard compares the child with `%s`, which is set per token and never reset when a ' \
                                            'new block starts: the first token of a block that belongs to the same child as the ' \
@@ -817,7 +828,7 @@ def r_argpos(prog, tier):
             obs.append(Ob('R-EXTRACT/MERGE', f.fq, 'a new reference is emitted iff the current argument is empty or its '
                           'last reference is to another child', okm, whym, construct='extract-merge', line=n.lineno))
     if sites < 3:
-        raise Unrecognised('R-ARGPOS found %d emission sites (at least 3 expected)' % sites)
+        raise Unrecognised('R-ARGPOS found %d emission sites (at least 3 expected)' % sites, partial=obs)
     # one argument per block
     f = prog.func('grammar', 'extract')
     cfg = f.cfg
@@ -978,6 +989,20 @@ def r_mustuse(prog, tier):
                         parents[ch] = x
             p = parents.get(n)
             used = not isinstance(p, ast.Expr)
+            lost = None
+            if used and ((c is not None and c[0] == 'grammarinput') or dm == 'grammarinput'):
+                # a grammar reader hands back the pair (grammar, lexicon): both halves are what was read
+                if isinstance(p, ast.Subscript) and p.value is n and isinstance(p.slice, ast.Constant):
+                    lost = 'only component %r of the pair (grammar, lexicon) is kept' % (p.slice.value,)
+                elif isinstance(p, ast.Assign) and p.value is n and len(p.targets) == 1 and isinstance(p.targets[0], ast.Tuple):
+                    for el in p.targets[0].elts:
+                        if isinstance(el, ast.Name) and not any(isinstance(y, ast.Name) and y.id == el.id and isinstance(y.ctx, ast.Load)
+                                                                for y in ast.walk(f.node)):
+                            lost = 'the component bound to `%s` is never read' % el.id
+            if lost:
+                obs.append(Ob('R-MUSTUSE', f.fq, 'both halves of what grammar reader `%s(...)` returns are used' % unparse(n.func)[:60],
+                              False, lost + ': the word / tag counts (or the rules) that were read never reach the output',
+                              construct='mustuse-pair:' + unparse(n.func), line=n.lineno))
             obs.append(Ob('R-MUSTUSE', f.fq, 'the result of reader call `%s(...)` is used' % unparse(n.func)[:60], used,
                           'iterated / bound' if used else 'called as a statement: what was read is thrown away',
                           construct='mustuse:' + unparse(n.func), line=n.lineno))
@@ -1194,7 +1219,7 @@ def r_idcounter(prog, tier):
                           'loop level' % (c, inc.lineno, sorted(set(u.lineno for u in bad))),
                           construct='idcounter:' + c, line=inc.lineno))
     if len(idc) < 2:
-        raise Unrecognised('pmcfg writer: %d id counters found (2 expected)' % len(idc))
+        raise Unrecognised('pmcfg writer: %d id counters found (2 expected)' % len(idc), partial=obs)
     return obs, {}
 
 
@@ -1207,7 +1232,7 @@ def r_sortedpos(prog, tier):
                 and unparse(n.value) == 'defaultdict(dict)':
             posd.add(n.targets[0].id)
     if not posd:
-        raise Unrecognised('rcg writer: no position dictionary (defaultdict(dict)) found')
+        raise Unrecognised('rcg writer: no position dictionary (defaultdict(dict)) found', partial=obs)
     inner = set()
     for n in walk_own(f.node):
         if isinstance(n, ast.For):
@@ -1262,7 +1287,7 @@ def r_sortedpos(prog, tier):
                       'them, not by position' % unparse(it)[:40], construct='sortedpos:%s:%s' % (nm, unparse(it)),
                       line=it.lineno))
     if cnt < 2:
-        raise Unrecognised('rcg writer: %d iterations over position dictionaries found (2 expected)' % cnt)
+        raise Unrecognised('rcg writer: %d iterations over position dictionaries found (2 expected)' % cnt, partial=obs)
     # variables are numbered from 0 in every clause: the counter starts afresh wherever the per-clause tables do
     cfg = f.cfg
     tabs = [m for m in cfg.eval_nodes() if m.kind == 'stmt' and isinstance(m.ast, ast.Assign) and isinstance(m.ast.targets[0], ast.Name)
@@ -1407,7 +1432,19 @@ def r_discont(prog, tier):
                 vs = unparse(v)
                 if ('cmp', rv, '<', vs) in facts or ('cmp', rv, '<=', vs) in facts:
                     good += 1
-                elif 'gap_degree_node' in vs or any(isinstance(d_, ast.AST) and 'gap_degree_node' in unparse(d_)
+                    continue
+                # `if result is None or v > result: result = v`: every way into the branch is "nothing yet" or "larger"
+                st_ = cfg_.nodes[nid].ast
+                own_ = [i_ for i_ in walk_own(f.node) if isinstance(i_, ast.If) and st_ in i_.body]
+                if own_:
+                    t_ = own_[0].test
+                    dis_ = t_.values if isinstance(t_, ast.BoolOp) and isinstance(t_.op, ast.Or) else [t_]
+                    if len(dis_) > 1 and all(unparse(d_) in ('%s is None' % rv, '%s == None' % rv) or
+                                             norm_test(d_, True) in (('cmp', rv, '<', vs), ('cmp', rv, '<=', vs)) for d_ in dis_) \
+                            and any(norm_test(d_, True) in (('cmp', rv, '<', vs), ('cmp', rv, '<=', vs)) for d_ in dis_):
+                        good += 1
+                        continue
+                if 'gap_degree_node' in vs or any(isinstance(d_, ast.AST) and 'gap_degree_node' in unparse(d_)
                                                     for x_ in ast.walk(v) if isinstance(x_, ast.Name)
                                                     for (_, d_) in name_defs(f, x_.id)):
                     bad += 1
@@ -1565,7 +1602,9 @@ def r_discont(prog, tier):
                 el = [n_ for n_ in loops_ if linv in [x.id for x in ast.walk(n_.ast.target) if isinstance(x, ast.Name)]]
                 if not el:
                     dv = [v for (_, v) in name_defs(f, linv) if isinstance(v, ast.AST)]
-                    if dv and all((isinstance(v, ast.Call) and unparse(v.func) == 'next') or
+                    # next(iter(X)) starts afresh each time: one element only; next(<kept iterator>) goes on where it was
+                    if dv and all((isinstance(v, ast.Call) and unparse(v.func) == 'next' and v.args and isinstance(v.args[0], ast.Call)
+                                   and unparse(v.args[0].func) == 'iter') or
                                   (isinstance(v, ast.Subscript) and isinstance(v.slice, (ast.Constant, ast.UnaryOp))) for v in dv):
                         raise _OneOnly(unparse(dv[0]))
                 if len(el) != 1 or len(el[0].loops) != 1:
@@ -1755,5 +1794,5 @@ def r_pairuse(prog, tier):
                               '(`%s`, `%s`)' % (unparse(a0), unparse(a1)), ok, why,
                               construct='pairuse:%s:%s' % (unparse(a0), unparse(a1)), line=n.lineno))
     if ncalls < 2:
-        raise Unrecognised('grammar.binarize calls binarize_rule %d times (2 expected)' % ncalls)
+        raise Unrecognised('grammar.binarize calls binarize_rule %d times (2 expected)' % ncalls, partial=obs)
     return obs, {}
